@@ -700,7 +700,12 @@ class QueueCollection(object):
 
         mergeable_prs = self._extract_pr_ids(self._queues)
 
-        if not self.force_merge:
+        # A pull request rejected on one merge path changes the tip queues
+        # to consider on the other paths: iterate until the selection is
+        # stable, so that the tip of every version is checked in the end.
+        stable = self.force_merge
+        while not stable:
+            stable = True
             for merge_path in self.merge_paths:
                 versions = [branch.version_t for branch in merge_path]
                 stack = deepcopy(self._queues)
@@ -710,6 +715,9 @@ class QueueCollection(object):
                     if version not in versions and len(version) < 4:
                         stack.pop(version)
 
+                # ignore pull requests already rejected on another path
+                self._remove_unmergeable(mergeable_prs, stack)
+
                 # obtain list of mergeable prs on this merge_path
                 self._recursive_lookup(stack)
                 path_mergeable_prs = self._extract_pr_ids(stack)
@@ -717,6 +725,7 @@ class QueueCollection(object):
                 # smallest table is the common denominator
                 if len(path_mergeable_prs) < len(mergeable_prs):
                     mergeable_prs = path_mergeable_prs
+                    stable = False
 
         self._mergeable_prs = mergeable_prs
         mergeable_queues = deepcopy(self._queues)
